@@ -1159,3 +1159,62 @@ fn c11_target_total() {
     assert!(n.is_valid() && same_target(&n, &d));
     assert!(n.is_equiv(&FuzzyHashData::<64, 32, true>::new()));
 }
+
+// ---- C14: unchecked entry points agree with the checked ones under their contracts ----
+#[cfg(feature = "unchecked")]
+#[allow(unsafe_code)]
+#[kani::proof]
+fn c14_unchecked_score_arithmetic() {
+    let l1: u8 = kani::any();
+    let l2: u8 = kani::any();
+    let d: u32 = kani::any();
+    kani::assume(l1 >= 7 && l1 <= 64 && l2 >= 7 && l2 <= 64 && d <= l1 as u32 + l2 as u32 - 14);
+    assert!(unsafe { FuzzyHashCompareTarget::raw_score_by_edit_distance_unchecked(l1, l2, d) } == FuzzyHashCompareTarget::raw_score_by_edit_distance(l1, l2, d));
+    let n: u8 = kani::any();
+    kani::assume(n < 4);
+    assert!(unsafe { FuzzyHashCompareTarget::score_cap_on_block_hash_comparison_unchecked(n, l1, l2) } == FuzzyHashCompareTarget::score_cap_on_block_hash_comparison(n, l1, l2));
+    kani::cover!(n == 3 && l1 == 64);
+}
+
+#[cfg(feature = "unchecked")]
+#[allow(unsafe_code)]
+fn c14_unchecked_target(na: u8, nb: u8) {
+    let (a, b) = any_pair::<32, 32, 7>(64, na, nb);
+    let ta = spec_target_m::<64, 32, 7>(&a);
+    let same = spec_same_content::<32, 32, 7>(&a, &b);
+    unsafe {
+        if na == nb {
+            assert!(ta.compare_near_eq_unchecked(&b) == ta.compare_near_eq(&b));
+            assert!(ta.is_comparison_candidate_near_eq_unchecked(&b) == ta.is_comparison_candidate_near_eq(&b));
+            if !same {
+                assert!(ta.compare_unequal_near_eq_unchecked(&b) == ta.compare_unequal_near_eq(&b));
+            }
+        } else if na + 1 == nb {
+            assert!(ta.compare_unequal_near_lt_unchecked(&b) == ta.compare_unequal_near_lt(&b));
+            assert!(ta.is_comparison_candidate_near_lt_unchecked(&b) == ta.is_comparison_candidate_near_lt(&b));
+        } else if nb + 1 == na {
+            assert!(ta.compare_unequal_near_gt_unchecked(&b) == ta.compare_unequal_near_gt(&b));
+            assert!(ta.is_comparison_candidate_near_gt_unchecked(&b) == ta.is_comparison_candidate_near_gt(&b));
+        }
+        if !same {
+            assert!(ta.compare_unequal_unchecked(&b) == ta.compare_unequal(&b));
+            assert!(a.compare_unequal_unchecked(&b) == a.compare_unequal(&b));
+        }
+    }
+    kani::cover!(!same && ta.compare(&b) > 0);
+}
+#[cfg(feature = "unchecked")]
+#[allow(unsafe_code)]
+#[kani::proof]
+#[kani::unwind(66)]
+fn c14_unchecked_target_3_3() { c14_unchecked_target(3, 3) }
+#[cfg(feature = "unchecked")]
+#[allow(unsafe_code)]
+#[kani::proof]
+#[kani::unwind(66)]
+fn c14_unchecked_target_3_4() { c14_unchecked_target(3, 4) }
+#[cfg(feature = "unchecked")]
+#[allow(unsafe_code)]
+#[kani::proof]
+#[kani::unwind(66)]
+fn c14_unchecked_target_30_29() { c14_unchecked_target(30, 29) }
